@@ -1,4 +1,4 @@
-import LenaModel.Model.Flow
+import LenaModel.Model.C01Stream
 /-! # C01 model — `Sequence`, `Source`, `LenaSequence`, `adapters.Run`, `meta.flatten`
 
 Transcribes
@@ -9,6 +9,9 @@ Transcribes
 * `lena/core/source.py`         `Source.__init__`, `Source.__call__`,
 * `lena/core/meta.py`           `flatten`.
 
+Flows are the streams of `LenaModel/Model/C01Stream.lean` (values yielded + how the iteration
+ended); a `run` is a `Stage` (the call may raise, or return an iterator that may raise later).
+
 An element is a record of what Python can observe of the object when a sequence is built
 (attributes present / callable) together with the denotation of each of its methods.  Using a
 method the object does not have is *not* totalised away: `invoke…` returns the `AttributeError`
@@ -16,7 +19,10 @@ method the object does not have is *not* totalised away: `invoke…` returns the
 never later" is a statement about this model that could be false.
 
 The second half (`Spec`) is the table of capability flags and denotations of the real element
-vocabulary used by the correspondence check. -/
+vocabulary used by the correspondence check.  Assumption of that table (kept by the generator
+of the check): an element object whose `run` keeps state between calls (`Count`, the
+accumulators behind `adapters.Run`) is run once; the elements that are run repeatedly — those
+inside `RunIf` and inside `Split` branches — are the stateless ones. -/
 
 namespace Lena.C01
 open Lena.Flow
@@ -41,7 +47,7 @@ def Attr.callable : Attr → Bool
 
 Accumulator state is represented by the history of filled values (the free state machine):
 `fillDen h v` is the effect of `fill(v)` after the values `h` were filled (it can only raise),
-`computeDen h` is what `compute()` yields after `h`. -/
+`computeDen h` is what `compute()` returns after `h` (the call may raise, or return an iterator). -/
 structure Element (α : Type) where
   /-- attribute `run` -/
   run : Attr := .absent
@@ -56,26 +62,26 @@ structure Element (α : Type) where
   /-- `hasattr(el, "__iter__")` (only `Source` looks at it) -/
   hasIter : Bool := false
   /-- `el.run(flow)` -/
-  runDen : Trans α := fun xs => .ok xs
+  runDen : Stage α := fun s => .ok s
   /-- `el(value)` -/
   callDen : α → Except Exc α := fun x => .ok x
   /-- `el.fill(value)` after the history `h` -/
   fillDen : List α → α → Except Exc Unit := fun _ _ => .ok ()
   /-- `el.compute()` after the history `h` -/
-  computeDen : List α → Except Exc (List α) := fun _ => .ok []
-  /-- the flow generated by `el()` (callable first element of a `Source`) -/
-  genDen : Except Exc (List α) := .ok []
+  computeDen : List α → Except Exc (Strm α) := fun _ => .ok .nil
+  /-- `el()` (callable first element of a `Source`): the call may raise, or return an iterator -/
+  genDen : Except Exc (Strm α) := .ok .nil
   /-- the flow obtained by iterating `el` (iterable first element of a `Source`) -/
-  iterDen : Except Exc (List α) := .ok []
+  iterDen : Strm α := .nil
 
 variable {α : Type}
 
 /-! ## Python-level method invocation (may hit a missing attribute) -/
 
 /-- `el.run(flow)` -/
-def Element.invokeRun (e : Element α) (xs : List α) : Except Exc (List α) :=
+def Element.invokeRun (e : Element α) (s : Strm α) : Except Exc (Strm α) :=
   match e.run with
-  | .method => e.runDen xs
+  | .method => e.runDen s
   | .value => .error .typeError
   | .absent => .error .attributeError
 
@@ -91,7 +97,7 @@ def Element.invokeFill (e : Element α) (h : List α) (x : α) : Except Exc Unit
   | .absent => .error .attributeError
 
 /-- `el.compute()` -/
-def Element.invokeCompute (e : Element α) (h : List α) : Except Exc (List α) :=
+def Element.invokeCompute (e : Element α) (h : List α) : Except Exc (Strm α) :=
   match e.compute with
   | .method => e.computeDen h
   | .value => .error .typeError
@@ -127,20 +133,25 @@ def mkRun (e : Element α) : Except Exc (Stored α) :=
   else if isFillComputeEl e then .ok (.adapted .fcRun e)     -- `ct.is_fill_compute_el(el)`
   else .error .lenaTypeError
 
-/-- `Run._fc_run`: `for arg in flow: self._el.fill(arg)`, then `self._el.compute()` -/
-def fcLoop (e : Element α) : List α → List α → Except Exc (List α)
-  | h, [] => e.invokeCompute h
+/-- `Run._fc_run`, a plain function: `for arg in flow: self._el.fill(arg)` — so an exception of a
+`fill`, or of the input flow when its values are used up, is raised by the call itself —, then
+`return self._el.compute()` -/
+def fcLoop (e : Element α) (t : Option Exc) : List α → List α → Except Exc (Strm α)
+  | h, [] =>
+    match t with
+    | some err => .error err
+    | none => e.invokeCompute h
   | h, x :: xs =>
     match e.invokeFill h x with
     | .error err => .error err
-    | .ok () => fcLoop e (h ++ [x]) xs
+    | .ok () => fcLoop e t (h ++ [x]) xs
 
 /-- `stored.run(flow)` -/
-def Stored.run : Stored α → Trans α
+def Stored.run : Stored α → Stage α
   | .asIs e => e.invokeRun
   | .adapted .runMethod e => e.invokeRun
-  | .adapted .callRun e => mapE e.invokeCall            -- `for val in flow: yield self._el(val)`
-  | .adapted .fcRun e => fcLoop e []
+  | .adapted .callRun e => fun s => .ok (mapS e.invokeCall s)   -- `for val in flow: yield self._el(val)`
+  | .adapted .fcRun e => fun s => fcLoop e s.term [] s.vals
 
 /-! ## `LenaSequence.__init__`, `Sequence.__init__`, `Sequence.run` -/
 
@@ -178,15 +189,15 @@ def mkSequence (args : List (Element α)) : Except Exc (Seq α) :=
   | .ok ss => .ok { nargs := args.length, stored := ss }
 
 /-- the loop `for el in self._data_seq: flow = el.run(flow)` -/
-def runStored : List (Stored α) → Trans α
-  | [], xs => .ok xs
-  | s :: ss, xs =>
-    match s.run xs with
+def runStored : List (Stored α) → Stage α
+  | [], s => .ok s
+  | st :: ss, s =>
+    match st.run s with
     | .error err => .error err
-    | .ok ys => runStored ss ys
+    | .ok s' => runStored ss s'
 
-/-- `Sequence.run(flow)` (`flow_to_iter` is the identity on finite flows) -/
-def Seq.run (s : Seq α) : Trans α := runStored s.stored
+/-- `Sequence.run(flow)` (`flow_to_iter` does not change what a flow yields) -/
+def Seq.run (s : Seq α) : Stage α := runStored s.stored
 
 /-- a constructed `Sequence` used as an argument of another sequence: it has a callable `run`
 and none of the other interfaces (`__len__`/`__iter__` exist, but `Source` is never given one
@@ -254,17 +265,20 @@ def mkSource (args : List (Element α)) : Except Exc (Src α) :=
         | .ok s => .ok { first := first, tail := some s }
       else .ok { first := first, tail := none }
 
+/-- `first()` or `first` itself: the flow that enters the tail -/
+def Element.sourceFlow (e : Element α) : Except Exc (Strm α) :=
+  if e.call then e.genDen else .ok e.iterDen
+
 /-- `Source.__call__()` -/
-def Src.call (s : Src α) : Except Exc (List α) :=
-  let flow := if s.first.call then s.first.genDen else s.first.iterDen
+def Src.call (s : Src α) : Except Exc (Strm α) :=
   match s.tail with
   | some t =>
     if t.nargs > 0 then                                      -- `if self._tail:` (`__len__` of `_seq`)
-      match flow with
+      match s.first.sourceFlow with
       | .error err => .error err
       | .ok xs => t.run xs
-    else flow
-  | none => flow
+    else s.first.sourceFlow
+  | none => s.first.sourceFlow
 
 /-! ## specification side: the documented stream transformation of one element -/
 
@@ -274,19 +288,22 @@ def Element.convertible (e : Element α) : Bool :=
   e.run.callable || e.call || (e.fill.callable && e.compute.callable)
 
 /-- fill every value, then compute (no attribute lookup) -/
-def fcSpec (e : Element α) : List α → List α → Except Exc (List α)
-  | h, [] => e.computeDen h
+def fcSpec (e : Element α) (t : Option Exc) : List α → List α → Except Exc (Strm α)
+  | h, [] =>
+    match t with
+    | some err => .error err
+    | none => e.computeDen h
   | h, x :: xs =>
     match e.fillDen h x with
     | .error err => .error err
-    | .ok () => fcSpec e (h ++ [x]) xs
+    | .ok () => fcSpec e t (h ++ [x]) xs
 
 /-- the element's own stream transformation: its `run`; else the map of the callable over the
 flow; else fill-all-then-compute -/
-def Element.den (e : Element α) : Trans α :=
+def Element.den (e : Element α) : Stage α :=
   if e.run.callable then e.runDen
-  else if e.call then mapE e.callDen
-  else fcSpec e []
+  else if e.call then fun s => .ok (mapS e.callDen s)
+  else fun s => fcSpec e s.term [] s.vals
 
 /-! ## the real element vocabulary (flags and denotations), used by `drivers/C01.lean` -/
 
@@ -316,19 +333,29 @@ inductive Spec where
   | syn (run : Attr) (call : Bool) (fill compute : Attr) (nodata : Bool)
   /-- an object with none of the interfaces (`5`, `"abc"`, `None`) -/
   | junk
+  /-- `lena.meta.SetContext(...)`: an element with `_has_no_data` -/
+  | setContext
   /-- a zero-argument generator function `lambda: iter(flow)` (first element of a `Source`) -/
   | gen (flow : List Value)
   /-- the list `flow` itself (iterable first element of a `Source`) -/
   | iter (flow : List Value)
 
 /-- marks put by the methods of the synthetic classes: `run` yields `["run", v]` for every `v`,
-`__call__` returns `["call", v]`, `compute` yields `["fc", [filled values]]` -/
+`__call__` returns `["call", v]`, `compute` yields `["fc", [filled values]]` (all generators) -/
 def synElement (run : Attr) (call : Bool) (fill compute : Attr) (nodata : Bool) : Element Value :=
   { run := run, call := call, fill := fill, compute := compute, hasNoData := nodata
-    runDen := fun xs => .ok (xs.map fun v => .list [.str "run", v])
+    runDen := fun s => .ok (mapS (fun v => .ok (.list [.str "run", v])) s)
     callDen := fun v => .ok (.list [.str "call", v])
     fillDen := fun _ _ => .ok ()
-    computeDen := fun h => .ok [.list [.str "fc", .list h]] }
+    computeDen := fun h => .ok (.ofList [.list [.str "fc", .list h]])
+    genDen := .error .typeError }
+
+/-- what iterating the generator `compute()` of an accumulator gives: its exceptions are raised
+by the first `next` -/
+def accComputeS (k : AccKind) (s : AccState) : Strm Value :=
+  match accCompute k s with
+  | .error e => .fail e
+  | .ok ys => .ofList ys
 
 /-- an `Acc` as an `Element` with `fill` and `compute` -/
 def accElement (k : AccKind) : Element Value :=
@@ -343,18 +370,7 @@ def accElement (k : AccKind) : Element Value :=
     computeDen := fun h =>
       match a.fillAll a.init h with
       | .error e => .error e
-      | .ok s => a.compute s }
-
-/-- `Split([...], bufsize).run` when every branch has type "sequence": for every buffer, every
-branch runs on (a copy of) the buffer; if the flow was empty every branch runs on `[]`.
-`Split([])` is `_empty_run`. -/
-def splitSeqRun (branches : List (Trans α)) (bufsize : Option Nat) : Trans α := fun xs =>
-  if branches.isEmpty then .ok xs
-  else
-    let onBuf (buf : List α) : Except Exc (List α) := flatMapE (fun (b : Trans α) => b buf) branches
-    match chunks bufsize xs with
-    | [] => onBuf []
-    | bufs => flatMapE onBuf bufs
+      | .ok s => .ok (accComputeS k s) }
 
 /-- the sequence of `RunIf.__init__`: `args[0]` if it is the only argument and a `Sequence`,
 else `lena.core.Sequence(*args)` -/
@@ -366,15 +382,15 @@ def runIfSeq (singleSequence : Bool) (es : List (Element Value)) : Except Exc (E
 mutual
 /-- the Python object denoted by a `Spec` (constructors may raise) -/
 def Spec.toElement : Spec → Except Exc (Element Value)
-  | .call f => .ok { call := true, callDen := f.call }
-  | .var name g => .ok { call := true, callDen := variableCall name g }
-  | .filter p => .ok { run := .method, runDen := filterE p.eval }
+  | .call f => .ok { call := true, callDen := f.call, genDen := .error .typeError }
+  | .var name g => .ok { call := true, callDen := variableCall name g, genDen := .error .typeError }
+  | .filter p => .ok { run := .method, runDen := fun s => .ok (filterS p.eval s) }
   | .slice a b s =>
     match Lena.C17.mkSlice a b s with
     | .valueError => .error .lenaValueError
-    | k => .ok { run := .method, runDen := sliceT k }
+    | k => .ok { run := .method, runDen := fun s => .ok (sliceS k s) }
   | .count name =>
-    .ok { (accElement (.count name)) with run := .method, runDen := fun xs => .ok (countRun name 0 xs) }
+    .ok { (accElement (.count name)) with run := .method, runDen := fun s => .ok (countS name 0 s) }
   | .runIf p inner =>
     -- `RunIf.__init__`: `lena.core.Sequence(*args)` (a single `Sequence` argument is used as is)
     match Spec.toElements inner with
@@ -382,9 +398,9 @@ def Spec.toElement : Spec → Except Exc (Element Value)
     | .ok es =>
       match runIfSeq (match inner with | [.seq _] => true | _ => false) es with
       | .error e => .error e
-      | .ok s => .ok { run := .method, runDen := runIfT p.eval s.invokeRun }
-  | .reverse => .ok { run := .method, runDen := reverseT }
-  | .end_ => .ok { run := .method, runDen := endT }
+      | .ok s => .ok { run := .method, runDen := fun fl => .ok (runIfS p.eval s.invokeRun fl) }
+  | .reverse => .ok { run := .method, runDen := fun s => .ok (reverseS s) }
+  | .end_ => .ok { run := .method, runDen := fun s => .ok (endS s) }
   | .acc k => .ok (accElement k)
   | .seq els =>
     match Spec.toElements els with
@@ -392,15 +408,21 @@ def Spec.toElement : Spec → Except Exc (Element Value)
     | .ok es => (mkSequence es).map Seq.toElement
   | .split branches bufsize =>
     -- `_get_seq_with_type`: a tuple without fill/compute elements becomes `Sequence(*seq)`;
-    -- `Split` has `run` and `__call__`
+    -- then the `bufsize` test; `Split` has `run` and `__call__` (a generator that raises
+    -- `LenaAttributeError` unless every sequence is a `Source`)
     match Spec.toBranches branches with
     | .error e => .error e
-    | .ok bs => .ok { run := .method, call := true, runDen := splitSeqRun (bs.map Seq.run) bufsize,
-                      callDen := fun _ => .error .typeError }
+    | .ok bs =>
+      if bufsize = some 0 then .error .lenaValueError
+      else .ok { run := .method, call := true
+                 runDen := fun s => .ok (splitS (bs.map Seq.run) bufsize s)
+                 callDen := fun _ => .error .typeError
+                 genDen := .ok (.fail .lenaAttributeError) }
   | .syn r c f cp nd => .ok (synElement r c f cp nd)
   | .junk => .ok {}
-  | .gen flow => .ok { call := true, callDen := fun _ => .error .typeError, genDen := .ok flow }
-  | .iter flow => .ok { hasIter := true, iterDen := .ok flow }
+  | .setContext => .ok { hasNoData := true }
+  | .gen flow => .ok { call := true, callDen := fun _ => .error .typeError, genDen := .ok (.ofList flow) }
+  | .iter flow => .ok { hasIter := true, iterDen := .ofList flow }
 def Spec.toElements : List Spec → Except Exc (List (Element Value))
   | [] => .ok []
   | s :: ss =>
